@@ -1,5 +1,5 @@
 (* C01 — a revision closes the gap.  Pinned statements only. *)
-From VV.M1 Require Import Oracles WitnessP.
+From VV.M1 Require Import Oracles WitnessP Hyp DiffEqP ApplyLocalP C01P C01HistP C01LocalP.
 
 (* full-strength target (a definition, not a claim): for every loader-accepted model set and every
    baseline reached by replaying a tool-grown history, applying the planned (and filled) migration to
@@ -39,3 +39,241 @@ Check C01_refuted_residue :
 (* non-vacuity of the positive side: a two-table evolution on which the gap does close *)
 Example C01_closes_somewhere : closes_gap d2_base d2_target = true.
 Proof. exact d2_closes. Qed.
+
+(* ====================================================================================== *)
+(* positive theorems: all inputs, no size bound, each under a decidable hypothesis of Corr/Hyp.v *)
+
+(* 1. apply_action only changes the table(s) its action names *)
+Theorem C01_apply_local : forall s a s' n,
+  apply_action s a = Ok s' -> ~ In n (action_tables a) ->
+  find (fun t => String.eqb (t_name t) n) s' = find (fun t => String.eqb (t_name t) n) s.
+Proof. exact apply_local. Qed.
+Print Assumptions C01_apply_local.
+Check C01_apply_local : forall s a s' n,
+  apply_action s a = Ok s' -> ~ In n (action_tables a) ->
+  find (fun t => String.eqb (t_name t) n) s' = find (fun t => String.eqb (t_name t) n) s.
+
+(* what `vespertide revision` fills in never changes what replay computes *)
+Theorem C01_fill_invisible : forall p B s, apply_all s (filled_actions p B) = apply_all s (p_actions p).
+Proof. exact apply_all_filled. Qed.
+Print Assumptions C01_fill_invisible.
+Check C01_fill_invisible : forall p B s, apply_all s (filled_actions p B) = apply_all s (p_actions p).
+
+(* the general step: tables created and dropped freely, every surviving table either unchanged for the
+   planner or changed only in type / nullability / default / comment of existing columns *)
+Theorem C01_step : forall B T, c01_step B T = true -> closes_gap B T = true.
+Proof. exact C01P.C01_step. Qed.
+Print Assumptions C01_step.
+Check C01_step : forall B T, c01_step B T = true -> closes_gap B T = true.
+
+(* the same with everything it establishes: the plan applies, the new baseline satisfies the invariant
+   again, re-planning is empty in both directions *)
+Theorem C01_step_invariant : forall B T, c01_step B T = true ->
+  exists acts B',
+    diff_actions B T = Ok acts /\ apply_all B acts = Ok B' /\ baseline_ok B' = true
+    /\ diff_actions B' T = Ok [] /\ diff_actions T B' = Ok [].
+Proof. exact c01_step_sound. Qed.
+Print Assumptions C01_step_invariant.
+Check C01_step_invariant : forall B T, c01_step B T = true ->
+  exists acts B',
+    diff_actions B T = Ok acts /\ apply_all B acts = Ok B' /\ baseline_ok B' = true
+    /\ diff_actions B' T = Ok [] /\ diff_actions T B' = Ok [].
+
+(* reduction to single tables: the plan closes the gap on the whole schema as soon as, for every table
+   name, the subsequence of the plan naming that table, run on that table alone, ends in a
+   normalisation fix-point the planner cannot tell from the model's table (c01_local, decidable);
+   other tables never interfere, whatever the re-ordering passes did to the interleaving *)
+Theorem C01_local : forall B T, c01_local B T = true -> closes_gap B T = true.
+Proof. exact C01LocalP.C01_local. Qed.
+Print Assumptions C01_local.
+Check C01_local : forall B T, c01_local B T = true -> closes_gap B T = true.
+
+Theorem C01_local_invariant : forall B T, c01_local B T = true ->
+  exists acts B',
+    diff_actions B T = Ok acts /\ apply_all B acts = Ok B' /\ baseline_ok B' = true
+    /\ diff_actions B' T = Ok [] /\ diff_actions T B' = Ok [].
+Proof. exact c01_local_sound. Qed.
+Print Assumptions C01_local_invariant.
+Check C01_local_invariant : forall B T, c01_local B T = true ->
+  exists acts B',
+    diff_actions B T = Ok acts /\ apply_all B acts = Ok B' /\ baseline_ok B' = true
+    /\ diff_actions B' T = Ok [] /\ diff_actions T B' = Ok [].
+
+(* 2. the first revision of a project *)
+Theorem C01_first_revision : forall T,
+  loader_accepts T = true -> (exists acts, diff_actions [] T = Ok acts) -> closes_gap [] T = true.
+Proof. exact C01HistP.C01_first_revision. Qed.
+Print Assumptions C01_first_revision.
+Check C01_first_revision : forall T,
+  loader_accepts T = true -> (exists acts, diff_actions [] T = Ok acts) -> closes_gap [] T = true.
+
+Theorem C01_first : forall B T, c01_first B T = true -> closes_gap B T = true.
+Proof. exact C01HistP.C01_first. Qed.
+Print Assumptions C01_first.
+Check C01_first : forall B T, c01_first B T = true -> closes_gap B T = true.
+
+Theorem C01_loader_accepts_nodup : forall T, loader_accepts T = true -> NoDup (map t_name T).
+Proof. exact loader_accepts_nodup. Qed.
+Print Assumptions C01_loader_accepts_nodup.
+Check C01_loader_accepts_nodup : forall T, loader_accepts T = true -> NoDup (map t_name T).
+
+(* 3. tables only added / removed, surviving tables equivalent *)
+Theorem C01_tables_only : forall B T, c01_tables_only B T = true -> closes_gap B T = true.
+Proof. exact C01HistP.C01_tables_only. Qed.
+Print Assumptions C01_tables_only.
+Check C01_tables_only : forall B T, c01_tables_only B T = true -> closes_gap B T = true.
+
+Theorem C01_tables_only_prop : forall B T,
+  NoDup (map t_name B) -> (forall t, In t B -> normalize t = Ok t) ->
+  NoDup (map t_name T) -> (exists acts, diff_actions B T = Ok acts) ->
+  (forall t b tn, In t T -> find_t (t_name t) B = Some b -> normalize t = Ok tn -> table_equiv b tn) ->
+  closes_gap B T = true.
+Proof. exact C01HistP.C01_tables_only_prop. Qed.
+Print Assumptions C01_tables_only_prop.
+Check C01_tables_only_prop : forall B T,
+  NoDup (map t_name B) -> (forall t, In t B -> normalize t = Ok t) ->
+  NoDup (map t_name T) -> (exists acts, diff_actions B T = Ok acts) ->
+  (forall t b tn, In t T -> find_t (t_name t) B = Some b -> normalize t = Ok tn -> table_equiv b tn) ->
+  closes_gap B T = true.
+
+(* 4. same tables, only column attributes differ *)
+Theorem C01_column_attributes : forall B T, c01_column_attrs B T = true -> closes_gap B T = true.
+Proof. exact C01HistP.C01_column_attributes. Qed.
+Print Assumptions C01_column_attributes.
+Check C01_column_attributes : forall B T, c01_column_attrs B T = true -> closes_gap B T = true.
+
+(* 5. histories grown by the tool, every step within the covered class: every replayed baseline
+   satisfies the invariant (derived, not assumed) ... *)
+Theorem C01_history_baseline : forall H, Grown c01_step_models H ->
+  exists B, replay H = Ok B /\ baseline_ok B = true.
+Proof. exact C01HistP.C01_history_baseline. Qed.
+Print Assumptions C01_history_baseline.
+Check C01_history_baseline : forall H, Grown c01_step_models H ->
+  exists B, replay H = Ok B /\ baseline_ok B = true.
+
+(* ... and the next covered revision closes its gap: planning succeeds, replaying the extended history
+   succeeds, planning again immediately reports no action, and the history stays grown *)
+Theorem C01_histories_partial : forall H B T,
+  Grown c01_step_models H -> replay H = Ok B -> c01_step_models B T = true ->
+  exists p B',
+    plan_next T H = Ok p /\ closes_gap B T = true /\
+    replay (H ++ [fill_plan p B]) = Ok B' /\ baseline_ok B' = true /\
+    diff_actions B' T = Ok [] /\ diff_actions T B' = Ok [] /\
+    plan_next T (H ++ [fill_plan p B])
+      = Ok (mkPlan "" None None (next_version (H ++ [fill_plan p B])) []) /\
+    Grown c01_step_models (H ++ [fill_plan p B]).
+Proof. exact C01HistP.C01_histories_partial. Qed.
+Print Assumptions C01_histories_partial.
+Check C01_histories_partial : forall H B T,
+  Grown c01_step_models H -> replay H = Ok B -> c01_step_models B T = true ->
+  exists p B',
+    plan_next T H = Ok p /\ closes_gap B T = true /\
+    replay (H ++ [fill_plan p B]) = Ok B' /\ baseline_ok B' = true /\
+    diff_actions B' T = Ok [] /\ diff_actions T B' = Ok [] /\
+    plan_next T (H ++ [fill_plan p B])
+      = Ok (mkPlan "" None None (next_version (H ++ [fill_plan p B])) []) /\
+    Grown c01_step_models (H ++ [fill_plan p B]).
+
+(* ---------- why the hypotheses are there ---------- *)
+(* a loader-accepted table may list a column name twice; a grown baseline with such a table never
+   converges once that column is modified; no classifier of known_findings.json fires *)
+Theorem C01_duplicate_column_refuted :
+  loader_accepts w_dup_T0 = true /\ loader_accepts w_dup_T = true /\
+  plan_next w_dup_T0 [] = Ok (mkPlan "" None None 1 (flat_map p_actions w_dup_H)) /\
+  replay w_dup_H = Ok w_dup_B /\ closes_gap [] w_dup_T0 = true /\
+  diff_actions w_dup_B w_dup_T = Ok [ModifyColumnType "t" "a" (TSimple Text) None] /\
+  (match apply_all w_dup_B [ModifyColumnType "t" "a" (TSimple Text) None] with
+   | Ok b' => diff_actions b' w_dup_T = Ok [ModifyColumnType "t" "a" (TSimple Text) None]
+   | Err _ => False
+   end) /\
+  closes_gap w_dup_B w_dup_T = false /\
+  known_shrunk_constraint w_dup_B w_dup_T = false /\ known_shadowed_inline w_dup_B w_dup_T = false /\
+  known_incremental_group w_dup_B w_dup_T = false.
+Proof. exact C01HistP.C01_duplicate_column_refuted. Qed.
+Print Assumptions C01_duplicate_column_refuted.
+Check C01_duplicate_column_refuted :
+  loader_accepts w_dup_T0 = true /\ loader_accepts w_dup_T = true /\
+  plan_next w_dup_T0 [] = Ok (mkPlan "" None None 1 (flat_map p_actions w_dup_H)) /\
+  replay w_dup_H = Ok w_dup_B /\ closes_gap [] w_dup_T0 = true /\
+  diff_actions w_dup_B w_dup_T = Ok [ModifyColumnType "t" "a" (TSimple Text) None] /\
+  (match apply_all w_dup_B [ModifyColumnType "t" "a" (TSimple Text) None] with
+   | Ok b' => diff_actions b' w_dup_T = Ok [ModifyColumnType "t" "a" (TSimple Text) None]
+   | Err _ => False
+   end) /\
+  closes_gap w_dup_B w_dup_T = false /\
+  known_shrunk_constraint w_dup_B w_dup_T = false /\ known_shadowed_inline w_dup_B w_dup_T = false /\
+  known_incremental_group w_dup_B w_dup_T = false.
+
+(* model-level corner: a default rendered as the empty string (only DFloat "", which f64::to_string
+   never produces) does not survive ModifyColumnDefault *)
+Theorem C01_empty_render_refuted :
+  baseline_ok w_render_B = true /\ loader_accepts w_render_T = true /\
+  diff_actions w_render_B w_render_T = Ok [ModifyColumnDefault "t" "a" (Some "")] /\
+  c01_step w_render_B w_render_T = false /\ closes_gap w_render_B w_render_T = false.
+Proof. exact C01HistP.C01_empty_render_refuted. Qed.
+Print Assumptions C01_empty_render_refuted.
+Check C01_empty_render_refuted :
+  baseline_ok w_render_B = true /\ loader_accepts w_render_T = true /\
+  diff_actions w_render_B w_render_T = Ok [ModifyColumnDefault "t" "a" (Some "")] /\
+  c01_step w_render_B w_render_T = false /\ closes_gap w_render_B w_render_T = false.
+
+(* ---------- the hypotheses are satisfiable by non-trivial values ---------- *)
+(* one step creating a table, dropping a table and changing type (enum value removed), nullability,
+   default and comment of a column, with the enum/default swap of the third re-ordering pass *)
+Example C01_step_nonvacuous :
+  c01_step w_step_B w_step_T = true /\ loader_accepts w_step_T = true
+  /\ diff_actions w_step_B w_step_T =
+     Ok [CreateTable "new" [pkcol "id"; fkcol "tid" "t" "id"] []; DeleteTable "gone";
+         ModifyColumnDefault "t" "s" (Some "a"); ModifyColumnNullable "t" "s" true None;
+         ModifyColumnType "t" "s" w_en2 None; ModifyColumnComment "t" "s" (Some "cm")].
+Proof. exact w_step_hyp. Qed.
+
+Example C01_first_nonvacuous :
+  c01_first [] w_first_T = true /\ loader_accepts w_first_T = true
+  /\ exists acts, diff_actions [] w_first_T = Ok acts /\ List.length acts = 2.
+Proof. exact w_first_hyp. Qed.
+
+Example C01_tables_only_nonvacuous :
+  c01_tables_only w_tables_B w_tables_T = true /\ loader_accepts w_tables_T = true
+  /\ exists acts, diff_actions w_tables_B w_tables_T = Ok acts /\ List.length acts = 2.
+Proof. exact w_tables_hyp. Qed.
+
+Example C01_column_attributes_nonvacuous :
+  c01_column_attrs w_attrs_B w_attrs_T = true /\ loader_accepts w_attrs_T = true
+  /\ diff_actions w_attrs_B w_attrs_T =
+     Ok [ModifyColumnNullable "t" "c" false None; ModifyColumnDefault "t" "b" (Some "''");
+         ModifyColumnDefault "t" "c" (Some "0")].
+Proof. exact w_attrs_hyp. Qed.
+
+(* a two-revision history grown by the tool and covered by C01_histories_partial *)
+Example C01_histories_nonvacuous :
+  Grown c01_step_models w_hist_H2 /\ List.length w_hist_H2 = 2 /\
+  replay w_hist_H1 = Ok w_hist_B1 /\ c01_step_models w_hist_B1 w_hist_T2 = true /\
+  loader_accepts w_hist_T2 = true /\
+  p_version w_hist_p2 = 2%N /\
+  p_actions w_hist_p2 =
+    [CreateTable "tag" [pkcol "id"] [];
+     ModifyColumnType "post" "user_id" (TSimple BigInt) None;
+     ModifyColumnNullable "post" "user_id" false None;
+     ModifyColumnComment "post" "user_id" (Some "owner")].
+Proof. exact w_hist_grown. Qed.
+
+(* a step outside c01_step covered by the reduction to single tables (7 actions of 6 kinds) *)
+Example C01_local_nonvacuous :
+  c01_local w_local_B w_local_T = true /\ c01_step w_local_B w_local_T = false /\
+  loader_accepts w_local_T = true /\
+  diff_actions w_local_B w_local_T =
+    Ok [CreateTable "new" [pkcol "id"; fkcol "t_id" "t" "id"] []; DeleteTable "gone";
+        DeleteColumn "t" "b"; ModifyColumnType "t" "a" (TSimple Text) None;
+        AddColumn "t" (w_local_ixcol "c") None;
+        AddConstraint "t" (CUnique (Some "ua") ["a"]); AddConstraint "t" (CIndex None ["c"])].
+Proof. exact w_local_hyp. Qed.
+
+(* on the D1 pair the single table "t" fails on its own *)
+Example C01_local_d1 :
+  baseline_ok d1_base = true /\ c01_local d1_base d1_target = false /\
+  match diff_actions d1_base d1_target, normalize_all d1_target with
+  | Ok acts, Ok Tn => local_ok d1_base Tn acts "t" = false
+  | _, _ => False
+  end.
+Proof. exact w_local_d1. Qed.
